@@ -97,7 +97,8 @@ def main(argv):
                            PROVSIM_REPLAY_DIR=os.path.join(base, "replays"))
                 env.pop("PYTHONPATH", None)
                 t0 = time.time()
-                r = sh([PY, "-m", "provsim.check", c, "quick"], env=env, cwd=VERIF, timeout=3000)
+                code = os.environ.get("PROVSIM_VERIF_CODE", VERIF)  # e.g. an older commit of /verif
+                r = sh([PY, "-m", "provsim.check", c, "quick"], env=env, cwd=code, timeout=3000)
                 out = r.stdout.decode("utf-8", "replace")
                 viol = [l for l in out.splitlines() if l.startswith("VIOLATION")]
                 sigs = [l.strip()[:200] for l in out.splitlines() if l.strip().startswith("signature=")]
@@ -113,7 +114,7 @@ def main(argv):
             else:
                 sh(["git", "-C", REPO, "worktree", "remove", "--force", wt])
             shutil.rmtree(base, ignore_errors=True)
-        meta["evaluation"] = ev
+        meta[os.environ.get("PROVSIM_EVAL_KEY", "evaluation")] = ev
         json.dump(meta, open(meta_p, "w"), indent=1)
     return 0
 
